@@ -136,7 +136,10 @@ class MultiCtl(BaseMultiCtl, Module):
             if mapping.controller == 0:  # no destination controller mapped
                 continue
             mod = self.parent.modules[to_mod]
-            ctl = list(mod.controllers.values())[mapping.controller - 1]
+            controllers = list(mod.controllers.values())
+            if mapping.controller > len(controllers):  # names a controller the target lacks
+                continue
+            ctl = controllers[mapping.controller - 1]
             vt = ctl.value_type
             if isinstance(vt, Range):
                 vmax = None if isinstance(vt, CompactRange) else vt.max - vt.min
